@@ -20,6 +20,7 @@ import (
 	"github.com/sarchlab/mgpusim/v4/amd/protocol"
 	"github.com/sarchlab/mgpusim/v4/amd/timing/cp"
 
+	"verif/mc/cuworld"
 	"verif/mc/explore"
 	"verif/mc/harness"
 	"verif/mc/world"
@@ -577,6 +578,20 @@ func main() {
 			}
 		}
 		scs = append(scs, harness.Scenario{Name: s.name, Bound: bound, Body: b, PanicSig: panicSig})
+	}
+	// the real functional-emulation CU (anchored in the property) under a dispatcher that maps in batches and may
+	// read completions late
+	if partOf == "" {
+		ks := cuworld.LoadKernels(harness.Dir())
+		k := ks["k8_store_then_endpgm"]
+		for _, bs := range [][]int{{1, 1, 1}, {2, 1, 2}, {3, 2}, {1, 3, 1, 1}} {
+			n := 0
+			for _, b := range bs {
+				n += b
+			}
+			scs = append(scs, harness.Scenario{Name: fmt.Sprintf("emu-cu/batches%v", bs), Bound: bound + 1,
+				Body: cuworld.EmuDispatchBody(k, cuworld.Geometry{WGSize: 64, NumWG: n}, bs)})
+		}
 	}
 	r.Assume = []string{
 		"a CU's resources are occupied from the MapWGReq until the CU sends the WGCompletionMsg",
